@@ -116,11 +116,12 @@ type tcode struct {
 	isRegion   map[string]*regionInfo
 	closureKey map[*types.Var]string
 	exts       map[string]map[string]string // alias → ext field → Lean type
+	extZero    map[string]map[string]string // alias → ext field → constant function returning the zero value
 }
 
 func newTcode(L *loader) *tcode {
 	return &tcode{L: L, fns: map[string]*fnInfo{}, structs: map[string]*structInfo{}, vars: map[string]*varInfo{},
-		regions: map[string]*regionInfo{}, isRegion: map[string]*regionInfo{}, closureKey: map[*types.Var]string{}, exts: map[string]map[string]string{}}
+		regions: map[string]*regionInfo{}, isRegion: map[string]*regionInfo{}, closureKey: map[*types.Var]string{}, exts: map[string]map[string]string{}, extZero: map[string]map[string]string{}}
 }
 
 type terr struct{ msg string }
@@ -171,6 +172,7 @@ func isByte(T types.Type) bool {
 
 // leanType maps a Go type to a Lean type; ok=false when unsupported.
 func (t *tcode) leanType(T types.Type) (string, bool) {
+	T = types.Unalias(T)
 	if isErrorType(T) {
 		return "(Option String)", true
 	}
@@ -246,6 +248,7 @@ func (t *tcode) leanType(T types.Type) (string, bool) {
 }
 
 func (t *tcode) zero(T types.Type) (string, bool) {
+	T = types.Unalias(T)
 	if isErrorType(T) {
 		return "(none : Option String)", true
 	}
@@ -311,6 +314,10 @@ func (t *tcode) ensureStruct(n *types.Named) *structInfo {
 		f := st.Field(i)
 		lt, ok := t.leanType(f.Type())
 		z, ok2 := t.zero(f.Type())
+		if _, isPtr := f.Type().(*types.Pointer); isPtr && ok && nilableFields[n.Obj().Pkg().Path()+"."+n.Obj().Name()+"."+f.Name()] {
+			// a pointer FIELD can be nil: Option of the pointee (locals and parameters of pointer type stay plain)
+			lt, z, ok2 = "(Option "+lt+")", "none", true
+		}
 		if !ok || !ok2 {
 			si.omitted = append(si.omitted, f.Name())
 			if as, isAnon := f.Type().(*types.Struct); isAnon {
@@ -521,6 +528,20 @@ func (t *tcode) computeImpure() {
 						calls[key] = append(calls[key], k)
 					}
 				}
+			case *ast.RangeStmt:
+				direct[key] = true
+			case *ast.SelectorExpr:
+				if inner, ok := x.X.(*ast.SelectorExpr); ok {
+					if (&emitter{t: t}).isPtrField(inner) {
+						direct[key] = true
+					}
+				}
+			case *ast.StarExpr:
+				if inner, ok := x.X.(*ast.SelectorExpr); ok {
+					if (&emitter{t: t}).isPtrField(inner) {
+						direct[key] = true
+					}
+				}
 			case *ast.BinaryExpr:
 				if x.Op == token.QUO || x.Op == token.REM {
 					if tv, ok := t.L.info.Types[x.Y]; ok && tv.Value == nil {
@@ -709,6 +730,7 @@ type emitter struct {
 	resNames []string
 	ptrOut   []string // names of pointer params returned first
 	size     int
+	loops    []string // innermost last: the state tuple of each enclosing range loop ("()" when empty)
 }
 
 func (e *emitter) fresh() string {
@@ -784,6 +806,9 @@ func (e *emitter) expr(x ast.Expr, h *hoist) string {
 				e.t.fail(x, "method value not supported")
 			}
 			base := e.expr(x.X, h)
+			if e.isPtrField(x.X) {
+				base = e.hoistCall(h, "Go.deref "+e.atom(base), true)
+			}
 			// check field is modelled
 			recvT := sel.Recv()
 			if p, ok := recvT.(*types.Pointer); ok {
@@ -821,6 +846,9 @@ func (e *emitter) expr(x ast.Expr, h *hoist) string {
 		}
 		e.t.fail(x, "unsupported selector")
 	case *ast.StarExpr:
+		if e.isPtrField(x.X) {
+			return e.hoistCall(h, "Go.deref "+e.atom(e.expr(x.X, h)), true)
+		}
 		return e.expr(x.X, h)
 	case *ast.SliceExpr:
 		if x.Low == nil && x.High == nil && x.Max == nil {
@@ -860,6 +888,42 @@ func (e *emitter) expr(x ast.Expr, h *hoist) string {
 	}
 	e.t.fail(x, "unsupported expression %T", x)
 	return ""
+}
+
+// pointer-typed struct fields modelled as `Option` (nil is a value the code tests for). Every other pointer field is
+// modelled as its pointee, i.e. assumed non-nil (State.Network, …): a nil test on such a field does not type-check in
+// Lean, so the assumption cannot be used silently.
+var nilableFields = map[string]bool{
+	coreMod + "/types.Block.V2":                          true,
+	coreMod + "/types.V2Transaction.NewFoundationAddress": true,
+}
+
+// isPtrField: x selects a struct field of pointer type (modelled as Option)
+func (e *emitter) isPtrField(x ast.Expr) bool {
+	for {
+		p, ok := x.(*ast.ParenExpr)
+		if !ok {
+			break
+		}
+		x = p.X
+	}
+	se, ok := x.(*ast.SelectorExpr)
+	if !ok {
+		return false
+	}
+	sel, ok := e.t.L.info.Selections[se]
+	if !ok || sel.Kind() != types.FieldVal {
+		return false
+	}
+	if _, isPtr := sel.Obj().Type().(*types.Pointer); !isPtr {
+		return false
+	}
+	recv := sel.Recv()
+	if p, ok := recv.(*types.Pointer); ok {
+		recv = p.Elem()
+	}
+	nm, ok := recv.(*types.Named)
+	return ok && nm.Obj().Pkg() != nil && nilableFields[nm.Obj().Pkg().Path()+"."+nm.Obj().Name()+"."+sel.Obj().Name()]
 }
 
 func (e *emitter) globalVar(v *types.Var, at ast.Node) string {
@@ -1053,7 +1117,26 @@ func (e *emitter) composite(x *ast.CompositeLit, h *hoist) string {
 			if !si.hasField(fname) {
 				e.t.fail(x, "literal sets unmodelled field %s", fname)
 			}
-			parts = append(parts, sanitize(fname)+" := "+e.expr(val, h))
+			fv := ""
+			for fi := 0; fi < st.NumFields(); fi++ {
+				if st.Field(fi).Name() == fname {
+					if _, isPtr := st.Field(fi).Type().(*types.Pointer); isPtr {
+						if u, ok := val.(*ast.UnaryExpr); ok && u.Op == token.AND {
+							fv = "(some " + e.atom(e.expr(u.X, h)) + ")"
+						} else if tv, ok := e.t.L.info.Types[val]; ok && tv.IsNil() {
+							fv = "none"
+						} else if e.isPtrField(val) {
+							fv = e.expr(val, h)
+						} else {
+							e.t.fail(val, "pointer field %s set from an expression that is neither &x, nil nor another pointer field", fname)
+						}
+					}
+				}
+			}
+			if fv == "" {
+				fv = e.expr(val, h)
+			}
+			parts = append(parts, sanitize(fname)+" := "+fv)
 		}
 		return "({ " + strings.Join(parts, ", ") + " } : " + lt + ")"
 	}
@@ -1132,8 +1215,8 @@ func (e *emitter) call(x *ast.CallExpr, h *hoist, ptrTargets *[]ast.Expr) string
 		// opaque helpers: formatting and error construction
 		if isErrorType(resT) {
 			name := key[strings.LastIndex(key, "/")+1:]
-			if e.t.isRegion[e.fi.key] != nil && len(x.Args) > 0 {
-				// inside a region the error value is the literal format string
+			if len(x.Args) > 0 {
+				// the error value is the literal format string
 				if tv, ok := info.Types[x.Args[0]]; ok && tv.Value != nil && tv.Value.Kind() == constant.String {
 					name = constant.StringVal(tv.Value)
 				}
@@ -1322,6 +1405,15 @@ func (e *emitter) retExpr(vals []string) string {
 	default:
 		s = "(" + strings.Join(all, ", ") + ")"
 	}
+	return e.retWrap(s)
+}
+
+// retWrap turns a fully formed result expression into the value a `return` produces here: inside a range-loop
+// body it is the early-exit value of the iteration (`some result`, loop state).
+func (e *emitter) retWrap(s string) string {
+	if k := len(e.loops); k > 0 {
+		return "pure (some " + e.atom(s) + ", " + e.loops[k-1] + ")"
+	}
 	if e.impure {
 		return "pure " + e.atom(s)
 	}
@@ -1393,6 +1485,10 @@ func (e *emitter) stmts(sb *strings.Builder, list []ast.Stmt, n int) {
 	if e.size > 4000 {
 		panic(terr{e.fi.pos + ": translated body too large (branch duplication)"})
 	}
+	if len(list) == 0 && len(e.loops) > 0 {
+		sb.WriteString(e.ind(n) + "pure (none, " + e.loops[len(e.loops)-1] + ")\n")
+		return
+	}
 	if len(list) == 0 {
 		// fall off the end: only legal with named results / no results
 		var vals []string
@@ -1427,8 +1523,8 @@ func (e *emitter) stmts(sb *strings.Builder, list []ast.Stmt, n int) {
 				// return f() with multiple values
 				v := e.expr(s.Results[0], &h)
 				e.emitHoist(sb, &h, n)
-				if len(e.ptrOut) > 0 {
-					e.t.fail(s, "tuple-forwarding return in pointer-mutating function")
+				if len(e.ptrOut) > 0 || len(e.loops) > 0 {
+					e.t.fail(s, "tuple-forwarding return in pointer-mutating function or loop")
 				}
 				if e.impure {
 					sb.WriteString(e.ind(n) + "pure " + e.atom(v) + "\n")
@@ -1513,6 +1609,17 @@ func (e *emitter) stmts(sb *strings.Builder, list []ast.Stmt, n int) {
 		e.assignTo(sb, s.X, val, n, &h)
 		e.stmts(sb, rest, n)
 	case *ast.AssignStmt:
+		if len(s.Rhs) == 1 && len(s.Lhs) == 1 {
+			if _, isLit := s.Rhs[0].(*ast.FuncLit); isLit {
+				if id, ok := s.Lhs[0].(*ast.Ident); ok {
+					if v, ok := e.t.L.info.Defs[id].(*types.Var); ok && e.t.closureKey[v] != "" {
+						// a closure defined here is translated as a definition of its own
+						e.stmts(sb, rest, n)
+						return
+					}
+				}
+			}
+		}
 		e.assign(sb, s, n)
 		e.stmts(sb, rest, n)
 	case *ast.IfStmt:
@@ -1603,9 +1710,143 @@ func (e *emitter) stmts(sb *strings.Builder, list []ast.Stmt, n int) {
 			return
 		}
 		e.stmts(sb, append([]ast.Stmt{chain}, rest...), n)
+	case *ast.BranchStmt:
+		if s.Tok == token.CONTINUE && s.Label == nil && len(e.loops) > 0 {
+			sb.WriteString(e.ind(n) + "pure (none, " + e.loops[len(e.loops)-1] + ")\n")
+			return
+		}
+		e.t.fail(s, "unsupported branch statement %s", s.Tok)
+	case *ast.RangeStmt:
+		e.rangeStmt(sb, s, rest, n)
 	default:
 		e.t.fail(s, "unsupported statement %T", s)
 	}
+}
+
+// rangeStmt: `for k, v := range xs { body }` over a slice or array becomes
+//   let (r, state…) ← Go.forRange xs (state…) (fun k v st => do let (state…) := st; body)
+//   match r with | some rv => <return rv> | none => <rest>
+// where `state` are the variables declared outside the loop that the body assigns, a `return` in the body ends the
+// loop with `some result`, and falling off the body (or `continue`) goes to the next element.
+func (e *emitter) rangeStmt(sb *strings.Builder, s *ast.RangeStmt, rest []ast.Stmt, n int) {
+	if !e.impure {
+		panic(terr{"internal: range loop in function classified pure"})
+	}
+	if len(e.ptrOut) > 0 {
+		e.t.fail(s, "range loop in a pointer-mutating function")
+	}
+	if s.Tok != token.DEFINE && (s.Key != nil || s.Value != nil) {
+		e.t.fail(s, "range loop assigning to existing variables")
+	}
+	XT := e.typeOf(s.X)
+	switch XT.Underlying().(type) {
+	case *types.Slice, *types.Array:
+	default:
+		e.t.fail(s, "range over %s", XT)
+	}
+	if isBytesType(XT) {
+		e.t.fail(s, "range over a byte string")
+	}
+	var h hoist
+	xs := e.expr(s.X, &h)
+	e.emitHoist(sb, &h, n)
+	// state: outer variables assigned in the body
+	info := e.t.L.info
+	lo, hi := s.Body.Pos(), s.Body.End()
+	seen := map[string]bool{}
+	var state []string
+	note := func(lhs ast.Expr) {
+		r := rootIdent(lhs)
+		if r == nil || r.Name == "_" {
+			return
+		}
+		obj := info.Uses[r]
+		if obj == nil {
+			obj = info.Defs[r]
+		}
+		v, ok := obj.(*types.Var)
+		if !ok || (v.Pos() >= lo && v.Pos() < hi) {
+			return
+		}
+		if s.Key != nil && info.Defs[identOf(s.Key)] == obj || s.Value != nil && info.Defs[identOf(s.Value)] == obj {
+			return
+		}
+		if !seen[r.Name] {
+			seen[r.Name] = true
+			state = append(state, sanitize(r.Name))
+		}
+	}
+	ast.Inspect(s.Body, func(nd ast.Node) bool {
+		switch a := nd.(type) {
+		case *ast.AssignStmt:
+			if a.Tok != token.DEFINE {
+				for _, l := range a.Lhs {
+					note(l)
+				}
+			} else {
+				// `x, err := …` may re-assign an outer variable only if declared in the same scope: inside the body it defines
+				for _, l := range a.Lhs {
+					if id, ok := l.(*ast.Ident); ok && info.Defs[id] == nil {
+						note(l)
+					}
+				}
+			}
+		case *ast.IncDecStmt:
+			note(a.X)
+		case *ast.FuncLit:
+			e.t.fail(a, "function literal inside a range loop")
+		case *ast.BranchStmt:
+			if a.Tok != token.CONTINUE || a.Label != nil {
+				e.t.fail(a, "%s inside a range loop", a.Tok)
+			}
+		}
+		return true
+	})
+	sort.Strings(state)
+	tuple := "()"
+	if len(state) == 1 {
+		tuple = state[0]
+	} else if len(state) > 1 {
+		tuple = "(" + strings.Join(state, ", ") + ")"
+	}
+	name := func(x ast.Expr, def string) string {
+		if x == nil {
+			return def
+		}
+		id := identOf(x)
+		if id == nil {
+			e.t.fail(s, "range variable is not an identifier")
+		}
+		if id.Name == "_" {
+			return def
+		}
+		e.noteDecl(id)
+		return sanitize(id.Name)
+	}
+	k := name(s.Key, "_")
+	v := name(s.Value, "_")
+	r := e.fresh()
+	bind := strings.TrimSuffix(strings.TrimPrefix(tuple, "("), ")")
+	if len(state) == 0 {
+		bind = "_"
+	}
+	sb.WriteString(fmt.Sprintf("%slet (%s, %s) ← Go.forRange %s %s (fun %s %s st_ => do\n", e.ind(n), r, bind, e.atom(xs), tuple, k, v))
+	if len(state) > 0 {
+		sb.WriteString(fmt.Sprintf("%slet %s := st_\n", e.ind(n+1), tuple))
+	}
+	e.loops = append(e.loops, tuple)
+	e.stmts(sb, s.Body.List, n+1)
+	e.loops = e.loops[:len(e.loops)-1]
+	sb.WriteString(e.ind(n+1) + ")\n")
+	sb.WriteString(fmt.Sprintf("%smatch %s with\n", e.ind(n), r))
+	sb.WriteString(fmt.Sprintf("%s| some rv_ => %s\n", e.ind(n), e.retWrap("rv_")))
+	sb.WriteString(fmt.Sprintf("%s| none =>\n", e.ind(n)))
+	e.stmts(sb, rest, n+1)
+}
+
+func identOf(x ast.Expr) *ast.Ident {
+	id, _ := x.(*ast.Ident)
+	return id
 }
 
 // tryJoin handles an `if` whose branches only assign to already-declared
